@@ -8,6 +8,7 @@ import MJ.Model.Safe
   A <name> <m> <i,j,…|-> <p,q,…|->   apply the named operator/filter model to registers, numeric parameters
 
 `<cps>` = decimal code points joined by `.`, `-` for the empty string.
+A line `?class\t<name>` is answered with the safety class of that filter/function (`classOf`).
 Output line: `<id>\tOK\t<last register>\t<output cps>\t<taint-ok>` or `<id>\tERR` (the model
 reports an engine error) or `<id>\tBAD <why>` (malformed case). -/
 open MJ MJ.Safe
@@ -59,14 +60,36 @@ partial def encV : V → String
   | .undef => "U"
   | .seq xs => "L(" ++ ";".intercalate (xs.map encV) ++ ")"
 
+def className : Class → String
+  | .modelled => "modelled"
+  | .forward => "forward"
+  | .normal => "normal"
+  | .mapped => "mapped"
+  | .markup => "markup"
+  | .unbuilt c => "unbuilt:" ++ c
+
+/-- index of the first step that reports an error -/
+def failingStep : List Step → St → Nat → Nat
+  | [], _, i => i
+  | s :: rest, st, i =>
+    match s.run st with
+    | none => i
+    | some st' => failingStep rest st' (i + 1)
+
 def handle (line : String) : String :=
   match line.splitOn "\t" with
+  | ["?class", name] =>
+    match classOf name with
+    | some c => s!"?class\t{name}\t{className c}"
+    | none => s!"?class\t{name}\tunclassified"
   | [id, prog] =>
     match (prog.splitOn "|").mapM parseStep with
     | .error e => s!"{id}\tBAD {e}"
     | .ok steps =>
       match run steps {} with
-      | none => s!"{id}\tERR"
+      | none =>
+        let k := failingStep steps {} 0
+        s!"{id}\tERR\tstep {k}: {(prog.splitOn "|").getD k "?"}"
       | some st =>
         let last := match st.pool.getLast? with | some v => encV v | none => "-"
         let tok := if decide (Clean st.out) then "clean" else "TAINTED-META"
